@@ -281,8 +281,29 @@ def run_case(case):
                 h.run_piece(["start"])
             elif kind == "fault":
                 h.model.fault_idx = {pr["k"]}
+                # a listener of the STOP notification of the fault pause (delivered by the run thread, which is
+                # therefore still active) tries to initialize: refused, nothing changes
+                attempt = {}
+
+                def stop_hook(entry):
+                    import threading
+                    from pydsol.core.simulator import SimulatorWorkerThread
+                    if "r" in attempt or not isinstance(threading.current_thread(), SimulatorWorkerThread):
+                        return
+                    n0 = h.sim.eventlist().size()
+                    try:
+                        h.sim.initialize(h.model, h.sim.replication)
+                        attempt["r"] = "accepted"
+                    except Exception as e:
+                        attempt["r"] = type(e).__name__
+                    attempt["pending"] = [n0, h.sim.eventlist().size()]
+                h.rec.hooks["STOP"] = stop_hook
                 h.run_piece(["start"])
+                h.rec.hooks.pop("STOP", None)
                 h.model.fault_idx = set()
+                if attempt and (attempt["r"] != "DSOLError" or attempt["pending"][0] != attempt["pending"][1]):
+                    out.fail("initialize-while-running", {"from a STOP listener on the run thread": attempt})
+                    return out
             from pydsol.core.simulator import RunState
             left_pending = h.sim.run_state != RunState.ENDED and h.sim.eventlist().size() > 0
             left_stats = any(s.n() > 0 for s in h.model.stats.values())
